@@ -199,6 +199,7 @@ pub fn main(args: &[String]) -> i32 {
     let edge_pct: u32 = o.num("edges", 25u32);
     // `--exact 1`: the boundary sizes are those of THIS format's header, mostly the exact fit
     let exact_own = o.num("exact", 0u32) == 1;
+    let huge_pct: u32 = o.num("huge", 0u32);
     let readcheck = o.num("readcheck", 0u32) == 1;
     let trickle_ms: u64 = o.num("trickle", 0u64);
     // threads (application and background alike) are held for a while at scheduling points now and then: a
@@ -286,6 +287,10 @@ pub fn main(args: &[String]) -> i32 {
             let use_ttl = ttl && rng.random_range(0..4) == 0;
             let mut val: Vec<u8> = {
                 let mut n = sizes[rng.random_range(0..sizes.len())];
+                if huge_pct > 0 && rng.random_range(0..100) < huge_pct {
+                    // an extent longer than the 256 blocks the retirement markers are written in at a time
+                    n = (257 + rng.random_range(0..80usize)) * 4096 - rng.random_range(0..5000usize);
+                }
                 if edge_pct > 0 && rng.random_range(0..100) < edge_pct && key.len() < 1000 {
                     // record sizes at a block boundary, for the header of this AND of the other formats
                     // (v1: 22 bytes + key, v2/v3: 30 bytes + key): exact fit, one short, one over
